@@ -57,49 +57,53 @@ def _resolve_sliceable(conn: Sliceable) -> Sliceable:
     raise TypeError(f"Invalid attempt to resolve slicing on {conn}")
 
 
+def _positions(slize: Slice) -> range:
+    """The indices of `slize.parent` selected by `slize`, in order."""
+    if slize.step < 0:
+        return range(slize.top - 1, slize.bot - 1, slize.step)
+    return range(slize.bot, slize.top, slize.step)
+
+
 def _list_slice(slize: Slice) -> List[Slice]:
     """Internal recursive helper for `resolve_slice`.
     Returns a list of Slices in which each element has a concrete Signal for its parent."""
 
     # Resolve "full-width" slices to their parent Signals
-    if width(slize) == width(slize.parent):
+    if slize.step == 1 and width(slize) == width(slize.parent):
         # Return a single-element list, after resolution
         return [_resolve_sliceable(slize.parent)]
 
-    if isinstance(slize.parent, Signal):
+    if isinstance(slize.parent, Signal) and slize.step == 1:
         return [slize]  # Already all good! Just make a one-element list.
 
-    # Do some actual work. Recursively peel off a bit at a time.
-    if width(slize) == 1:
-        # Base case: slice is one-bit wide. Reach into the parent signal and grab that bit.
+    # Do some actual work. Peel off a bit at a time.
+    bits = []
+    for idx in _positions(slize):
+        bits.extend(_list_bit(slize.parent, idx))
+    return bits
 
-        if isinstance(slize.parent, Slice):
-            parent = slize.parent  # Note this is also a Slice
-            return _list_slice(parent.parent[parent.bot + slize.bot])
 
-        if isinstance(slize.parent, Concat):
-            idx = 0  # Find the `part` including our index
-            for part in slize.parent.parts:
-                if width(part) + idx > slize.bot:
-                    return _list_slice(part[slize.bot - idx])
-                idx += width(part)
-            msg = f"Slice {slize} is out of bounds of Concat {slize.parent}"
-            raise RuntimeError(msg)
+def _list_bit(parent: Sliceable, idx: int) -> List[Slice]:
+    """Internal recursive helper for `_list_slice`.
+    Reach into `parent` and grab its bit `idx`, as a list of Slices into a concrete Signal."""
 
-        raise TypeError(f"Invalid attempt to resolve slicing on {slize}")
-
-    # Otherwise recurse in something like a "cons" pattern, splitting between the first bit and the rest.
-    step = slize.step
-    if step < 0:  # Negative step, begin from `top`
-        first = _list_slice(slize.parent[slize.top])
-        rest = slize.parent[slize.top + step : slize.bot : step]
-        rest = _list_slice(rest)
-
-    else:  # Positive step, begin from `bot`
-        first = _list_slice(slize.parent[slize.bot])
-        rest = _list_slice(slize.parent[slize.bot + step : slize.top : step])
-
-    return first + rest
+    if isinstance(parent, Signal):
+        return _list_slice(parent[idx])
+    if isinstance(parent, Slice):
+        return _list_bit(parent.parent, _positions(parent)[idx])
+    if isinstance(parent, Concat):
+        offset = 0  # Find the `part` including our index
+        for part in parent.parts:
+            if width(part) + offset > idx:
+                return _list_bit(part, idx - offset)
+            offset += width(part)
+        msg = f"Index {idx} is out of bounds of Concat {parent}"
+        raise RuntimeError(msg)
+    if isinstance(parent, (PortRef, BundleRef)):
+        if parent.resolved is None:
+            raise RuntimeError(f"Unresolved reference {parent}")
+        return _list_bit(parent.resolved, idx)
+    raise TypeError(f"Invalid attempt to resolve slicing on {parent}")
 
 
 def _resolve_slice(slize: Slice) -> Sliceable:
